@@ -227,7 +227,7 @@ def _locale_batch(regs: list) -> list:
         with open(inp, "w", encoding="ascii") as fil:
             json.dump(regs, fil)
         env = dict(os.environ, LC_ALL="C", LANG="C", PYTHONUTF8="0", PYTHONIOENCODING="ascii:backslashreplace",
-                   PYTHONPATH=os.pathsep.join([common.VERIF, "/repo/src"]), PYTHONDONTWRITEBYTECODE="1")
+                   PYTHONPATH=os.pathsep.join([common.VERIF, common.REPO_SRC]), PYTHONDONTWRITEBYTECODE="1")
         env.pop("PYTHONCOERCECLOCALE", None)
         env["PYTHONCOERCECLOCALE"] = "0"
         proc = subprocess.run([sys.executable, "-c",
@@ -343,7 +343,7 @@ VALID_TEXTS = None
 
 
 def _valid_texts() -> list[str]:
-    base = os.path.join("/repo", "tests", "fixtures")
+    base = os.path.join(common.REPO_ROOT, "tests", "fixtures")
     out = []
     for name in ("test_aiomysensors_persistence.json", "test_pymysensors_persistence.json"):
         try:
